@@ -211,7 +211,8 @@ def items_for(tier):
   if tier == "quick":
     pair_ctx = {"mod": (core, core)}
   else:
-    pair_ctx = {"mod": (all_ids, all_ids), "fnret": (core, core)}
+    # (all ordered pairs of all templates is ~10^4 programs x ~12 variants: hours on this VM)
+    pair_ctx = {"mod": (core, core), "fnret": (core, core), "meth": (core, core)}
   for c, (first, second) in pair_ctx.items():
     for a in first:
       for b in second:
@@ -526,8 +527,8 @@ def run(rep, tier, seed):
       "bounds": ("tier=%s: every template (%d) alone in every context (%d; quick: non-core templates only in mod/fnret/meth); all ordered pairs of %s in context mod%s; "
                  "for every reported (line, class): 4 placements" % (
                      tier, len(TEMPLATES), len(CONTEXTS),
-                     "the %d core templates" % sum(t[1] for t in TEMPLATES) if tier == "quick" else "all templates",
-                     "" if tier == "quick" else " + all ordered pairs of core templates in context fnret")),
+                     "the %d core templates" % sum(t[1] for t in TEMPLATES),
+                     "" if tier == "quick" else " + the same pairs in contexts fnret and meth")),
   })
   rep.rule = ("evaluation = (program, reported (line L, class E), placement) analysed by pytype.io.generate_pyi and judged "
               "against the baseline run of the same program: (1) nothing of class E (anything, for type: ignore) is left on L; "
